@@ -65,7 +65,7 @@ func init() {
 }
 
 func c06Generate(c *mon.Ctx) {
-	concBatches(c, c.N(6, 300), func(seed uint64) any { return &c06Case{Conc: seed} })
+	concBatches(c, c.NConc(6, 300), func(seed uint64) any { return &c06Case{Conc: seed} })
 
 	n := oracle.N
 	st := gen.Structured(n)
@@ -236,7 +236,7 @@ func c06Generate(c *mon.Ctx) {
 	})
 
 	// and again at the end of the shard, when the process has a history behind it
-	concBatches(c, c.N(4, 200), func(seed uint64) any { return &c06Case{Conc: seed + 50000} })
+	concBatches(c, c.NConc(4, 200), func(seed uint64) any { return &c06Case{Conc: seed + 50000} })
 }
 
 func c06RunChain(c *mon.Ctx, cs *c06Case) {
